@@ -206,7 +206,7 @@ def in_unit(R, wave_nm, value, unit, valueunit=None):
 def workload(ctx, lentil):
     rng = ctx.rng
     R = lentil.radiometry
-    n = 160 if ctx.tier == 'quick' else 1200
+    n = ctx.count(160, 1200)
     rels = ['identical', 'nested', 'overlap', 'disjoint']
     units = sm.WAVE_CANON
     for i in range(n):
